@@ -4,6 +4,8 @@ package main
 
 import (
 	"fmt"
+	"go/constant"
+	"go/token"
 	"go/types"
 	"strings"
 
@@ -15,8 +17,8 @@ func init() {
 		ID:    "C04",
 		Title: "Metamethods are selected and applied by the Lua 5.1 rules",
 		Explanation: "Decided: R04-raw — 'rawget, rawset and rawequal never invoke handlers': in the VTA call graph no function reachable from baseRawGet/baseRawSet/baseRawEqual or from the (*LTable).Raw* accessors is part of the metamethod machinery (callR, Call, PCall, metaOp1, metaOp2, metaCall, metatable, getField*, setField*), and in equals() the handler lookup is on the !raw arm only; " +
-			"R04-events — the event name that reaches metaOp1/metaOp2/objectRational* from each operation equals the Lua 5.1 manual §2.8 table (arithmetic per opcode, __unm, __len, __concat, __eq, __lt, __le with the 'not (b < a)' fallback using swapped operands and negation, __index, __newindex, __call, __tostring, __metatable), operands are passed in source order, the handler is pushed before its operands and exactly one result is requested; binary lookups try the left operand first. " +
-			"R04-siblings — the generic and the string-keyed index/assignment helpers (getField/getFieldString, setField/setFieldString) perform the same sequence of raw lookups, stores, handler calls and raises. NOT decided: raw-first lookup order, __newindex only for absent keys, the __eq identity condition, chain depth — visible only as 'this is how it is written'.",
+			"R04-events — the event name that reaches metaOp1/metaOp2/objectRational* from each operation equals the Lua 5.1 manual §2.8 table (arithmetic per opcode, __unm, __len, __concat, __eq, __lt, __le with the 'not (b < a)' fallback using swapped operands and negation, __index, __newindex, __call, __tostring, __metatable), operands are passed in source order, the handler is pushed before its operands and exactly one result is requested; binary lookups try the left operand first; comparison handlers are called only when both operands supply the identical handler, and == consults __eq on the table/userdata arm only. " +
+			"R04-siblings — the generic and the string-keyed index/assignment helpers (getField/getFieldString, setField/setFieldString) perform the same sequence of raw lookups, stores, handler calls and raises. NOT decided: raw-first lookup order, __newindex only for absent keys, chain depth — visible only as 'this is how it is written'.",
 		Trusted: []string{"Lua 5.1 manual §2.8 event table written out in the checker"},
 		Rules:   []func(*Ctx){ruleRaw, ruleEvents, ruleSiblings},
 	})
@@ -110,9 +112,39 @@ type eventSpec struct {
 	comment string
 }
 
+var anyTypeEvent = map[string]bool{"__len": true, "__unm": true, "__call": true, "__tostring": true, "__index": true, "__newindex": true}
+
+// positiveTypeTest names the type a true condition establishes: the ok of v.(T), or v.Type() == LTx.
+func positiveTypeTest(v ssa.Value) string {
+	if ex, ok := v.(*ssa.Extract); ok && ex.Index == 1 {
+		if ta, ok := ex.Tuple.(*ssa.TypeAssert); ok && ta.CommaOk {
+			return types.TypeString(ta.AssertedType, func(*types.Package) string { return "" })
+		}
+	}
+	if b, ok := v.(*ssa.BinOp); ok && b.Op == token.EQL {
+		for _, side := range []ssa.Value{b.X, b.Y} {
+			if k, ok := side.(*ssa.Const); ok {
+				if nt, ok := k.Type().(*types.Named); ok && nt.Obj().Name() == "LValueType" {
+					if n, ok := constInt(k); ok {
+						sc := nt.Obj().Pkg().Scope()
+						for _, nm := range sc.Names() {
+							if cst, ok := sc.Lookup(nm).(*types.Const); ok && types.Identical(cst.Type(), nt) {
+								if v, ok := constant.Int64Val(cst.Val()); ok && v == n {
+									return nm
+								}
+							}
+						}
+					}
+				}
+			}
+		}
+	}
+	return ""
+}
+
 func ruleEvents(c *Ctx) {
 	const R = "R04-events"
-	c.floor(R, 22)
+	c.floor(R, 30)
 	p := c.P
 	t := p.vmTable()
 	resolve := func(name string) *ssa.Function {
@@ -178,6 +210,20 @@ func ruleEvents(c *Ctx) {
 		}
 		c.Sites++
 		c.check(okOrder, R, key, p.ipos(hit), "event name and operand order as in the manual", fmt.Sprintf("%s passes its operands to %s in the wrong order", s.fn, s.callee))
+		// events every type of value may define (through its type's metatable): the lookup is not placed
+		// under a test that admits only tables or only userdata
+		if anyTypeEvent[s.event] && s.callee == "(*LState).metaOp1" {
+			narrowed := ""
+			for _, cd := range p.G(fn).CondsAtInstr(hit) {
+				if !cd.Sense {
+					continue
+				}
+				if tn := positiveTypeTest(cd.V); tn == "*LTable" || tn == "*LUserData" || tn == "LTTable" || tn == "LTUserData" {
+					narrowed = tn
+				}
+			}
+			c.check(narrowed == "", R, key+":any-operand-type", p.ipos(hit), "the event is looked up for every operand type the fast path did not take", fmt.Sprintf("%s looks up %q only when the operand is a %s: a value of another type with that metamethod (a userdata with __len, say) is answered without calling it, unlike the VM instruction", s.fn, s.event, narrowed))
+		}
 	}
 	// OP_LE fallback: swapped operands and negation
 	if h := resolve("OP_LE"); h != nil {
@@ -238,6 +284,56 @@ func ruleEvents(c *Ctx) {
 			}
 			c.check(got[int64(o.Val)] == ev, R, "objectArith:"+name, p.pos(fn.Pos()), ev, fmt.Sprintf("%s looks up %q, the manual prescribes %q", name, got[int64(o.Val)], ev))
 		}
+	}
+	// comparison handlers are used only when both operands supply the identical handler
+	if fn := c.need(R, "lua", "objectRational"); fn != nil {
+		g := p.G(fn)
+		mo1 := p.Fn("lua", "(*LState).metaOp1")
+		looks := callsTo(fn, mo1)
+		okc := false
+		for _, cl := range callsTo(fn, p.Fn("lua", "(*LState).Call")) {
+			for _, cd := range g.CondsAtInstr(cl) {
+				b, ok := cd.V.(*ssa.BinOp)
+				if !ok || b.Op.String() != "==" || !cd.Sense || len(looks) != 2 {
+					continue
+				}
+				if (b.X == ssa.Value(looks[0]) && b.Y == ssa.Value(looks[1])) || (b.X == ssa.Value(looks[1]) && b.Y == ssa.Value(looks[0])) {
+					okc = true
+				}
+			}
+		}
+		sameEvent := len(looks) == 2 && vkey(looks[0].Call.Args[2]) == vkey(looks[1].Call.Args[2]) && vkey(looks[0].Call.Args[1]) == "p:lhs" && vkey(looks[1].Call.Args[1]) == "p:rhs"
+		c.check(okc && sameEvent, R, "objectRational:identical-handler", p.pos(fn.Pos()), "the handler is called only when the left and the right operand's handlers for the event are the same value", "comparison metamethods (__eq, __lt, __le) are applied although the two operands do not supply the identical handler: a == b calls the left handler for objects with different __eq functions")
+	}
+	// equals: only tables and userdata reach the handler
+	if fn := c.need(R, "lua", "equals"); fn != nil {
+		g := p.G(fn)
+		okc := false
+		ltT, _ := p.intConst("lua", "LTTable")
+		ltU, _ := p.intConst("lua", "LTUserData")
+		for _, cl := range callsTo(fn, p.Fn("lua", "objectRational")) {
+			ks := map[int64]bool{}
+			// multi-value case arm: collect the constants of the tests leading here (through the chain of blocks)
+			seen := map[*ssa.BasicBlock]bool{}
+			var up func(b *ssa.BasicBlock, d int)
+			up = func(b *ssa.BasicBlock, d int) {
+				if seen[b] || d > 4 {
+					return
+				}
+				seen[b] = true
+				for _, k := range caseValuesReachingAny(b) {
+					ks[k] = true
+				}
+				for _, pr := range g.Preds(b) {
+					up(pr, d+1)
+				}
+			}
+			up(cl.Block(), 0)
+			if ks[ltT] && ks[ltU] && len(ks) <= 3 {
+				okc = true
+			}
+		}
+		c.check(okc, R, "equals:handler-for-table-userdata-only", p.pos(fn.Pos()), "__eq is consulted on the table/userdata arm only", "__eq is consulted for types other than table and userdata")
 	}
 	// metaOp2 tries value1 first
 	if fn := c.need(R, "lua", "(*LState).metaOp2"); fn != nil {
@@ -366,6 +462,28 @@ func ruleSiblings(c *Ctx) {
 		c.check(same, R, pair[0]+"≡"+pair[1], p.pos(b.Pos()), fmt.Sprintf("both perform the same %d lookup/store/handler steps", len(sa)),
 			"the generic and the string-keyed accessor no longer follow the same metamethod chain ("+diff+"): t[k] and t.name select different handlers")
 	}
+}
+
+// caseValuesReachingAny: constants k such that an edge `x == k` (true) leads into b, for any x.
+func caseValuesReachingAny(b *ssa.BasicBlock) []int64 {
+	var out []int64
+	for _, pr := range b.Preds {
+		if len(pr.Instrs) == 0 {
+			continue
+		}
+		iff, ok := pr.Instrs[len(pr.Instrs)-1].(*ssa.If)
+		if !ok || pr.Succs[0] != b {
+			continue
+		}
+		bin, ok := iff.Cond.(*ssa.BinOp)
+		if !ok || bin.Op.String() != "==" {
+			continue
+		}
+		if k, ok := constInt(bin.Y); ok {
+			out = append(out, k)
+		}
+	}
+	return out
 }
 
 func min(a, b int) int {
